@@ -8,7 +8,7 @@ import json, os, re, shutil, subprocess, sys, tempfile
 src, sid = sys.argv[1], sys.argv[2]
 meta = json.load(open(os.path.join(src, 'meta.json')))
 prop = meta.get('property', sid.split('-')[0])
-pkgdir = {'C09':'machine/disk','C10':'machine/disk','C11':'machine/disk','C12':'machine/filesys','C13':'machine/filesys','C14':'machine/filesys','C16':'machine'}.get(prop)
+pkgdir = {'C06':'.','C03':'.','C09':'machine/disk','C10':'machine/disk','C11':'machine/disk','C12':'machine/filesys','C13':'machine/filesys','C14':'machine/filesys','C16':'machine'}.get(prop)
 demo = meta['demo'] if isinstance(meta['demo'], str) else json.dumps(meta['demo'])
 if 'demo_pkg' in meta: pkgdir = meta['demo_pkg']
 m = re.search(r"-run\s+'?\"?([A-Za-z0-9_|^$.*]+)", demo)
@@ -30,7 +30,8 @@ try:
     assert res['suite_with_patch'] == 'pass', 'existing suite fails with the patch:\n' + r.stdout[-2000:]
     demofile = [f for f in os.listdir(src) if f.startswith('demo') and f.endswith('.go')][0]
     shutil.copy(os.path.join(src, demofile), os.path.join(wt, pkgdir, 'zz_seeded_demo_test.go'))
-    cmd = 'go test -vet=off -count=1 %s -run %s ./%s/' % ('-race' if race else '', "'%s'" % runre, pkgdir)
+    pkgarg = '.' if pkgdir in ('.', '') else './%s/' % pkgdir
+    cmd = 'go test -vet=off -count=1 %s -run %s %s' % ('-race' if race else '', "'%s'" % runre, pkgarg)
     r = sh(cmd, timeout=600)
     res['demo_cmd'] = cmd
     res['demo_with_patch'] = 'fails' if r.returncode != 0 else 'PASSES'
